@@ -299,8 +299,12 @@ def run_shard(d):
                         _c07(ad, cls, kw, cfg, reads, res, aw, rw)
                         continue
                     passes = [("own", False)] if which == "C02" else ([("own", False), ("mock", True)] if real else [("own", False)])
+                    if which == "C02" and real and (rw or aw):
+                        passes = passes + [("own+pickled", "pickle")]  # what a worker process gets under the spawn start method
                     for label, mock in passes:
-                        if mock:
+                        if mock == "pickle":
+                            ad = pickle.loads(pickle.dumps(ad))
+                        elif mock:
                             # second pass: a pickle round trip of the adapter (what a worker process gets under the
                             # spawn start method) with the prefilter switched off
                             ad = pickle.loads(pickle.dumps(ad))
